@@ -908,11 +908,16 @@ SPECS["C09"]["theorems"] += [
     "Woodpile.Props.C09H.dec_lag_zero_world",
     "Woodpile.Props.C09H.enc_drained_stable_prefix",
     "Woodpile.Props.C09H.enc_drained_complete",
+    "Woodpile.Props.C09H.enc_slices_in_cap",
+    "Woodpile.Props.C09H.enc_lag_le",
+    "Woodpile.Props.C09H.enc_lag_le_prod",
 ]
 SPECS["C09"]["level_text"] += (' Props/C09H (track anch) lifts the method restriction of Props/C09W: the exact structural lag of the encoder-driven iovec '
     '(enc_lag_struct) and decoder lag 0 (dec_lag_zero_world) hold for ALL input methods (EncWorld.ACall: borrow, copy, anchored reads). '
-    'C09H.enc_lag_le_partial is still `_partial`, for ONE reason: the constant bound takes the in-capacity hypothesis (as C09W); C09G discharges it for '
-    'borrow/copy input only, and with anchored input the constant is max(2^20, largest read_n count), not 2^20. The PREFIX clause on the structural iovec '
+    'C09H.enc_lag_le_partial keeps the in-capacity fact as a hypothesis (as C09W, hence the name); C09H.enc_lag_le / enc_lag_le_prod DISCHARGE it for all input '
+    'methods by a direct capacity invariant along the run (Proofs/EncWorldCap): lag < S + max(maxInit,maxSub) where S is the largest chunk the arena tuning '
+    'allocates for requests up to B and every anchored read asks for at most B bytes; production tuning, reads < 2^20 bytes: lag < 2^20 + 64008 + 2 '
+    '(with anchored reads of 2^20 bytes or more the arena chunk, hence the constant, grows with the largest count requested - the property\'s "one arena chunk"). The PREFIX clause on the structural iovec '
     '(enc_drained_stable_prefix): between the calls of any run, drained ++ bytes of the first n slices, n = Iov.stableCount (what the driver prints through), '
     'is a prefix of Spec.encode of the whole input whatever calls follow; enc_drained_complete: nothing is lost at the end.')
 SPECS["C17"]["lean_modules"] += ["Woodpile.Props.C17W"]
